@@ -23,6 +23,8 @@ type Solver struct {
 	levels  [][]int     // ids defined per level
 	stack   [][]*Term   // mirror of assertion stack (for restart)
 	timeout time.Duration
+	lazyFP   bool // float constraints are kept off the incremental solver: feasibility probes over-approximate (ignore them), verdicts are decided one-shot on the full path condition
+	feasMode bool // the next one-shot query is a feasibility probe: short time limit, unknown keeps the path
 	logf    *os.File
 
 	Queries  int
@@ -161,6 +163,9 @@ func (s *Solver) Assert(t *Term) {
 		s.stack = [][]*Term{nil}
 	}
 	s.stack[len(s.stack)-1] = append(s.stack[len(s.stack)-1], t)
+	if s.lazyFP && termHasFPArith(t, map[int]bool{}) {
+		return
+	}
 	s.define(t)
 	s.send("(assert " + ref(t) + ")")
 }
@@ -189,7 +194,7 @@ func (s *Solver) readLine() (string, bool) {
 
 // Check runs (check-sat) on the current assertion stack.
 func (s *Solver) Check() string {
-	if s.usesFP() {
+	if s.usesFP() && !(s.lazyFP && s.feasMode) {
 		r, _ := s.oneShot(nil)
 		return r
 	}
@@ -215,7 +220,7 @@ func (s *Solver) Check() string {
 			res = l
 			break
 		}
-		if strings.HasPrefix(l, "(error") {
+		if strings.HasPrefix(l, "(error \"") {
 			s.Errors = append(s.Errors, l)
 			// keep reading: the verdict line still follows, but it is not trusted
 			res = "error"
@@ -246,6 +251,15 @@ func (s *Solver) Check() string {
 
 // CheckWith asks whether the current stack plus the extra terms is satisfiable.
 func (s *Solver) CheckWith(extra ...*Term) string {
+	s.feasMode = true
+	defer func() { s.feasMode = false }()
+	if s.lazyFP {
+		for _, t := range extra {
+			if termHasFPArith(t, map[int]bool{}) {
+				return "sat" // not probed: both sides of a float branch are explored; verdict queries see the full path condition
+			}
+		}
+	}
 	nerr := len(s.Errors)
 	s.Push()
 	for _, t := range extra {
@@ -336,7 +350,7 @@ func (s *Solver) getValuesRef(refs []string) []uint64 {
 			s.restart()
 			return nil
 		}
-		if strings.HasPrefix(l, "(error") {
+		if strings.HasPrefix(l, "(error \"") {
 			s.Errors = append(s.Errors, l)
 			return nil
 		}
@@ -394,7 +408,7 @@ func (s *Solver) getValues(vars []*Term) map[string]uint64 {
 			s.restart()
 			return nil
 		}
-		if strings.HasPrefix(l, "(error") {
+		if strings.HasPrefix(l, "(error \"") {
 			s.Errors = append(s.Errors, l)
 			return nil
 		}
@@ -540,14 +554,35 @@ func termHasFP(t *Term, seen map[int]bool) bool {
 	return false
 }
 
+// termHasFPArith: float arithmetic (as opposed to classification predicates and
+// comparisons of variables and constants, which the incremental core handles well).
+func termHasFPArith(t *Term, seen map[int]bool) bool {
+	if seen[t.id] {
+		return false
+	}
+	seen[t.id] = true
+	switch t.op {
+	case "fp.add", "fp.sub", "fp.mul", "fp.div", "fp.sqrt", "fp.fma", "fp.rem", "fp.roundToIntegral", "fp.to_sbv", "fp.to_ubv", "to_fp_signed", "to_fp_unsigned", "fp.to_fp":
+		return true
+	}
+	for _, a := range t.args {
+		if termHasFPArith(a, seen) {
+			return true
+		}
+	}
+	return false
+}
+
 func (s *Solver) usesFP() bool {
 	if s.kind != "z3" && s.kind != "z3new" {
 		return false
 	}
+	// only float ARITHMETIC needs the one-shot strategy; classification predicates and
+	// comparisons of variables are handled well by the incremental core
 	seen := map[int]bool{}
 	for _, lvl := range s.stack {
 		for _, t := range lvl {
-			if termHasFP(t, seen) {
+			if termHasFPArith(t, seen) {
 				return true
 			}
 		}
@@ -603,6 +638,9 @@ func (s *Solver) oneShot(vals []*Term) (string, []uint64) {
 		bin = "z3-new"
 	}
 	secs := int(s.timeout/time.Second) + 1
+	if s.feasMode && secs > 4 {
+		secs = 4
+	}
 	cmd := exec.Command(bin, "-in", "-T:"+strconv.Itoa(secs))
 	cmd.Stdin = strings.NewReader(sb.String())
 	out, _ := cmd.Output()
